@@ -138,6 +138,7 @@ class BufWorld:
 
 
 class GenSource:
+    BIG = 1 << 19  # largest whole-range request
     def __init__(self, rng, profile, world):
         self.rng = rng
         self.profile = profile
@@ -217,6 +218,11 @@ class GenSource:
             size = max(0, min(size, 6000))
         else:
             size = rng.randint(1, mx)
+        if size > self.BIG:
+            # whole-range requests are only made while the ranges are small: a request that misses a
+            # huge free range by one byte doubles the buffer, and every step compares whole buffers
+            # (400-step thorough histories reached gigabytes)
+            size = 1 + size % mx
         return {"op": "alloc", "buf": b, "size": int(size), "align": aligned, "fill": rng.getrandbits(31) if rng.random() < self.sw["p_fill"] else None}
 
     def _free(self, w, live):
@@ -238,7 +244,7 @@ class GenSource:
                 al_flag = rng.random() < 0.5
                 al = w.alignment(reg.buf, al_flag)
                 size = hi - align_up(lo, al)
-                if size > 0:
+                if 0 < size <= self.BIG:
                     self.pending.append({"op": "alloc", "buf": reg.buf, "size": int(size), "align": al_flag, "fill": rng.getrandbits(31)})
         return op
 
@@ -246,7 +252,10 @@ class GenSource:
         rng = self.rng
         b = rng.randrange(len(w.bufs))
         cap = w.models[b].capacity
-        return {"op": "grow", "buf": b, "n": int(rng.choice([0, 1, 7, 8, 64, max(cap, 1), rng.randint(1, 200)]))}
+        # (doubling is only offered while the buffer is small: every step compares whole buffers, and a
+        # 400-step thorough history of doublings reached gigabytes)
+        big = max(cap, 1) if cap <= (1 << 20) else 4096
+        return {"op": "grow", "buf": b, "n": int(rng.choice([0, 1, 7, 8, 64, big, rng.randint(1, 200)]))}
 
     def _span(self, w, k):
         rng = self.rng
